@@ -24,11 +24,16 @@ pub struct HolderCommit {
 }
 
 pub fn holder_commit_and_prove(key: &KeyMat, msgs: &[Integer], hidden: &[usize], trusted: bool) -> HolderCommit {
+    holder_commit_and_prove_with(key, msgs, hidden, if trusted { Some(&key.tp_cpk) } else { None })
+}
+
+/// `tp`: the trusted party's commitment key, if a trusted-party commitment accompanies C
+pub fn holder_commit_and_prove_with(key: &KeyMat, msgs: &[Integer], hidden: &[usize], tp: Option<&CL03CommitmentPublicKey>) -> HolderCommit {
     let m = msgs_of(msgs);
     let bases = Bases(key.bases.0[..msgs.len()].to_vec());
     let c = Commitment::<Sch>::commit_with_pk(&m, &key.pk, &bases, Some(hidden));
-    let ct = if trusted { Some(Commitment::<Sch>::commit_with_commitment_pk(&m, &key.tp_cpk, Some(hidden))) } else { None };
-    let zk = ZKPoK::<Sch>::generate_proof(&m, c.cl03Commitment(), ct.as_ref().map(|x| x.cl03Commitment()), &key.pk, &bases, if trusted { Some(&key.tp_cpk) } else { None }, hidden);
+    let ct = tp.map(|tp| Commitment::<Sch>::commit_with_commitment_pk(&m, tp, Some(hidden)));
+    let zk = ZKPoK::<Sch>::generate_proof(&m, c.cl03Commitment(), ct.as_ref().map(|x| x.cl03Commitment()), &key.pk, &bases, tp, hidden);
     HolderCommit { c_value: c.value().clone(), c_randomness: c.randomness().clone(), ct_value: ct.as_ref().map(|x| x.value().clone()), ct_randomness: ct.as_ref().map(|x| x.randomness().clone()), zk_json: serde_json::to_string(&zk).unwrap() }
 }
 
